@@ -60,6 +60,23 @@ func union(a, b lockSet) lockSet {
 	return out
 }
 
+// effective: what is held at a point = what the callers hold, minus what the function has released
+// of it ("!lock" markers), plus what it took itself.
+func effective(entry, local lockSet) lockSet {
+	out := lockSet{}
+	for k, w := range entry {
+		if _, rel := local["!"+k]; !rel {
+			out[k] = w
+		}
+	}
+	for k, w := range local {
+		if !strings.HasPrefix(k, "!") {
+			out[k] = out[k] || w
+		}
+	}
+	return out
+}
+
 type access struct {
 	Field string // Struct.field
 	Func  string
@@ -86,6 +103,10 @@ type lockExtract struct {
 	fieldTy  map[string]string
 	locks    map[string]bool
 	acq      map[string]int // "func|lock" -> acquisition sites in the function's own body
+	pkgPath  string
+	// wrappers: functions whose whole body is one lock operation on a target struct's mutex
+	// (eg NetMachInternal.Lock -> NetworkMachine.clockMx Lock); a call to one is that operation
+	wrappers map[string][2]string
 }
 
 func typeName(t types.Type) string {
@@ -155,7 +176,7 @@ func (x *lockExtract) calleeName(call *ast.CallExpr) string {
 		}
 	}
 	fn, ok := obj.(*types.Func)
-	if !ok || fn.Pkg() == nil || fn.Pkg().Path() != "github.com/pancsta/asyncmachine-go/pkg/machine" {
+	if !ok || fn.Pkg() == nil || fn.Pkg().Path() != x.pkgPath {
 		return ""
 	}
 	sig := fn.Type().(*types.Signature)
@@ -275,7 +296,13 @@ func (w *walker) stmt(s ast.Stmt, held lockSet) lockSet {
 	switch v := s.(type) {
 	case *ast.ExprStmt:
 		if call, ok := v.X.(*ast.CallExpr); ok {
-			if lock, op, ok := w.x.lockOp(call); ok {
+			lock, op, ok := w.x.lockOp(call)
+			if !ok {
+				if wr, is := w.x.wrappers[w.x.calleeName(call)]; is {
+					lock, op, ok = wr[0], wr[1], true
+				}
+			}
+			if ok {
 				w.x.locks[lock] = true
 				held = held.clone()
 				if (op == "Lock" || op == "RLock") && !w.inLit {
@@ -284,12 +311,19 @@ func (w *walker) stmt(s ast.Stmt, held lockSet) lockSet {
 				switch op {
 				case "Lock":
 					held[lock] = true
+					delete(held, "!"+lock)
 				case "RLock":
 					if !held[lock] {
 						held[lock] = false
 					}
+					delete(held, "!"+lock)
 				case "Unlock", "RUnlock":
-					delete(held, lock)
+					if _, mine := held[lock]; mine {
+						delete(held, lock)
+					} else {
+						// a lock the caller took: released for the rest of this function
+						held["!"+lock] = true
+					}
 				}
 				return held
 			}
@@ -422,6 +456,15 @@ func (w *walker) stmt(s ast.Stmt, held lockSet) lockSet {
 	return held
 }
 
+// CallRow: one internal call site with the locks held there.
+type CallRow struct {
+	Caller, Callee string
+	Locks          []string
+}
+
+// lastCalls: the internal call sites of the last extraction.
+var lastCalls []CallRow
+
 // lastLockAcq: acquisition sites per "func|lock" of the last extraction.
 var lastLockAcq map[string]int
 
@@ -470,9 +513,24 @@ func extractLocks(dir, pkgPath string, targets []string) ([]LockRow, error) {
 		return nil, fmt.Errorf("type check %s: %w", pkgPath, err)
 	}
 	x := &lockExtract{fset: fset, info: info, targets: map[string]bool{}, funcs: map[string]bool{}, exported: map[string]bool{},
-		fieldTy: map[string]string{}, locks: map[string]bool{}, acq: map[string]int{}}
+		fieldTy: map[string]string{}, locks: map[string]bool{}, acq: map[string]int{}, pkgPath: pkgPath, wrappers: map[string][2]string{}}
 	for _, t := range targets {
 		x.targets[t] = true
+	}
+	for _, f := range files {
+		for _, d := range f.Decls {
+			fd, ok := d.(*ast.FuncDecl)
+			if !ok || fd.Body == nil || len(fd.Body.List) != 1 {
+				continue
+			}
+			if es, ok := fd.Body.List[0].(*ast.ExprStmt); ok {
+				if call, ok := es.X.(*ast.CallExpr); ok {
+					if lock, op, ok := x.lockOp(call); ok {
+						x.wrappers[funcName(fd)] = [2]string{lock, op}
+					}
+				}
+			}
+		}
 	}
 	for _, f := range files {
 		for _, d := range f.Decls {
@@ -528,9 +586,9 @@ func extractLocks(dir, pkgPath string, targets []string) ([]LockRow, error) {
 			}
 			var at lockSet
 			if c.InLit {
-				at = c.Held.clone() // a literal's body knows only its own locks
+				at = effective(lockSet{}, c.Held) // a literal's body knows only its own locks
 			} else {
-				at = union(ce, c.Held)
+				at = effective(ce, c.Held)
 			}
 			if x.exported[c.Callee] {
 				continue
@@ -556,12 +614,30 @@ func extractLocks(dir, pkgPath string, targets []string) ([]LockRow, error) {
 		entry[fn] = lockSet{}
 	}
 	lastLockAcq = x.acq
+	lastCalls = nil
+	for _, c := range x.calls {
+		ce := lockSet{}
+		if !c.InLit {
+			ce = entry[c.Caller]
+		}
+		at := effective(ce, c.Held)
+		var ls []string
+		for k, wmode := range at {
+			m := "R"
+			if wmode {
+				m = "W"
+			}
+			ls = append(ls, k+":"+m)
+		}
+		sort.Strings(ls)
+		lastCalls = append(lastCalls, CallRow{Caller: c.Caller, Callee: c.Callee, Locks: ls})
+	}
 	seen := map[string]bool{}
 	var rows []LockRow
 	for _, a := range x.accesses {
-		eff := a.Local
+		eff := effective(lockSet{}, a.Local)
 		if !a.InGo {
-			eff = union(entry[a.Func], a.Local)
+			eff = effective(entry[a.Func], a.Local)
 		}
 		var ls []string
 		for k, wmode := range eff {
@@ -570,6 +646,12 @@ func extractLocks(dir, pkgPath string, targets []string) ([]LockRow, error) {
 				m = "W"
 			}
 			ls = append(ls, k+":"+m)
+		}
+		// a lock of the caller's that the function has released before this access
+		for k := range a.Local {
+			if strings.HasPrefix(k, "!") {
+				ls = append(ls, "released "+k[1:]+":W")
+			}
 		}
 		sort.Strings(ls)
 		r := LockRow{Field: a.Field, Func: a.Func, Write: a.Write, Locks: ls, Async: a.InGo, Type: x.fieldTy[a.Field]}
